@@ -22,7 +22,7 @@ TOGGLES = [
     "alias_scalars", "component_parameters", "component_bodies", "component_responses", "path_item_parameters",
     "same_name_two_locations", "multi_body", "multipart", "form", "octet", "text_responses", "plus_json",
     "no_content", "security", "tags", "defaults", "descriptions", "query_arrays", "header_params",
-    "cookie_params", "shared_paths", "inline_response_objects", "shuffle_decl",
+    "cookie_params", "shared_paths", "inline_response_objects", "shuffle_decl", "media_type_params", "item_level_name_clash", "multi_media_responses", "wrapped_refs",
 ]
 
 PROP_VOCAB = [
@@ -240,6 +240,8 @@ class DocGen:
         opts = [("scalar", 5.0)]
         if self.schema_kind:
             opts.append(("ref", getattr(self, "ref_weight", 3.0)))
+        if self.schema_kind and self.on("wrapped_refs"):
+            opts.append(("wrapref", 1.2))
         if self.on("enums"):
             opts.append(("enum", 1.5))
         if allow_array:
@@ -258,6 +260,13 @@ class DocGen:
         if kind == "ref":
             # models dedicated to form/multipart bodies may hold binary fields: never reachable from JSON contexts
             return self.ref(r.choice([n for n, k in self.schema_kind.items() if k != "bodymodel"] or list(self.schema_kind)))
+        if kind == "wrapref":
+            # the usual way to attach a description to a reference: a one-element allOf/oneOf/anyOf wrapper
+            tgt = self.ref(r.choice([n for n, k in self.schema_kind.items() if k != "bodymodel"] or list(self.schema_kind)))
+            w: dict = {r.choice(["allOf", "allOf", "oneOf", "anyOf"]): [tgt]}
+            if r.random() < 0.5:
+                w["description"] = "wrapped reference"
+            return w
         if kind == "enum":
             return self.enum_schema()
         if kind == "array":
@@ -502,9 +511,17 @@ class DocGen:
             chosen.remove("plusjson")
         content: dict[str, dict] = {}
         used_types: set[str] = set()
+        ov = getattr(self, "ct_overrides", {}) or {}
+        inv = {}
+        for custom, target in ov.items():
+            inv.setdefault(target, custom)
         for k in chosen:
             if k in ("json", "plusjson"):
                 mt = "application/json" if k == "json" else r.choice(["application/vnd.sim+json", "application/merge-patch+json"])
+                if self.on("media_type_params") and r.random() < 0.3:
+                    mt += r.choice(["; charset=utf-8", "; version=2", ";profile=sim"])
+                elif k == "json" and "application/json" in inv and r.random() < 0.5:
+                    mt = inv["application/json"]
                 if len(chosen) > 1:
                     models = [m for m in self.refs_of_kind(("model", "allof")) if m not in used_types]
                     if not models:
@@ -517,12 +534,20 @@ class DocGen:
                 content[mt] = {"schema": sch}
             elif k == "form":
                 m = self.dedicated_model(form=True)
-                content["application/x-www-form-urlencoded"] = {"schema": self.ref(m)}
+                mt = "application/x-www-form-urlencoded"
+                if self.on("media_type_params") and r.random() < 0.3:
+                    mt += "; charset=utf-8"
+                content[mt] = {"schema": self.ref(m)}
             elif k == "multipart":
                 m = self.dedicated_model(multipart=True)
                 content["multipart/form-data"] = {"schema": self.ref(m)}
             elif k == "octet":
-                content["application/octet-stream"] = {"schema": {"type": "string", "format": "binary"}}
+                mt = "application/octet-stream"
+                if "application/octet-stream" in inv and r.random() < 0.5:
+                    mt = inv["application/octet-stream"]
+                elif self.on("media_type_params") and r.random() < 0.3:
+                    mt += "; type=blob"
+                content[mt] = {"schema": {"type": "string", "format": "binary"}}
         if not content:
             return None
         items = list(content.items())
@@ -552,6 +577,8 @@ class DocGen:
         if k == "octet":
             return {"application/octet-stream": {"schema": {"type": "string", "format": "binary"}}}
         mt = "application/json" if k == "json" else r.choice(["application/vnd.sim+json", "application/problem+json"])
+        if self.on("media_type_params") and r.random() < 0.25:
+            mt += r.choice(["; charset=utf-8", "; version=2"])
         models = self.refs_of_kind(("model", "allof"))
         c = r.random()
         if models and c < 0.45:
@@ -577,6 +604,12 @@ class DocGen:
         resp: dict = {"description": self.rng.choice(["ok", "result", "error", "done"])}
         c = self.response_content()
         if c is not None:
+            if self.on("multi_media_responses") and self.rng.random() < 0.3:
+                # an unsupported media type listed FIRST, with another schema: the first SUPPORTED one decides
+                junk = {self.rng.choice(["application/xml", "image/png", "application/pdf"]): {"schema": self.rng.choice([{"type": "integer"}, {"type": "string", "format": "binary"}, {"type": "array", "items": {"type": "boolean"}}])}}
+                c = {**junk, **c}
+                if self.rng.random() < 0.3:
+                    c["application/x-other"] = {"schema": {"type": "boolean"}}
             resp["content"] = c
         return resp
 
@@ -684,6 +717,21 @@ class DocGen:
                     some_op = item[r.choice(methods)]
                     override = self.make_param(victim["name"], "path")
                     some_op.setdefault("parameters", []).append(override)
+                if self.on("item_level_name_clash") and r.random() < 0.6:
+                    # a path-item-level parameter with the NAME of an operation-level parameter of another location
+                    cands = []
+                    for m_ in methods:
+                        for p_ in item[m_].get("parameters", []):
+                            if isinstance(p_, dict) and p_.get("in") in ("query", "header", "cookie"):
+                                cands.append(p_)
+                    if cands:
+                        src = r.choice(cands)
+                        locs = ["query"] + (["header"] if self.on("header_params") else []) + (["cookie"] if self.on("cookie_params") else [])
+                        locs = [x for x in locs if x != src["in"]]
+                        if locs:
+                            other = r.choice(locs)
+                            if not any(p_.get("name") == src["name"] and p_.get("in") == other for p_ in item_level):
+                                item_level.append(self.make_param(src["name"], other))
                 if r.random() < 0.4:
                     # a path-item-level query parameter shared by all operations, shadowed in one
                     qn = "shared_q"
